@@ -477,6 +477,53 @@ Definition filter_event (kids : list snode) (e : list byte) (ev : content) : fde
     container on the target's existing child, or on the freshly created (replacing) one. *)
 Inductive wres := WOk (c : content) | WErr | WPanic | WUnsup.
 
+(** one definition of the source container: editor.leaf / editor.node on the writer side; the result is
+    the target's content after it *)
+Definition wedit_kid (rec : snode -> dnode -> dnode -> bool -> xres dnode) (new : bool)
+           (kids : list snode) (sc : content) (i : nat) (k : snode) (tc : content) : xres content :=
+  if negb (Nat.eqb (length (sguard k)) 0) then XUnsup else
+  match k with
+  | SLeaf _ _ _ dflt =>
+      let v := match nth i sc None with
+               | Some d => Some d
+               | None => if new then option_map DLeaf dflt else None
+               end in
+      match v with
+      | None => XOk tc
+      | Some d =>
+          xbind (when_field true [] kids tc k) (fun ok => XOk (if ok then set_nth i (Some d) tc else tc))
+      end
+  | SCont _ kk =>
+      match nth i sc None with
+      | None => XOk tc
+      | Some sd =>
+          (* to.selekt(New=false): existing child if its when holds *)
+          let existing : xres (option dnode) :=
+            match nth i tc None with
+            | Some (DCont cc as td) => xbind (when_cont true [] [] [] k cc) (fun ok => XOk (if ok then Some td else None))
+            | Some _ => XUnsup
+            | None => XOk None
+            end in
+          xbind existing (fun ex =>
+            match ex with
+            | Some td => xbind (rec k sd td false) (fun td' => XOk (set_nth i (Some td') tc))
+            | None =>
+                (* to.selekt(New=true): the store puts a fresh container there, then the post-constraint *)
+                xbind (when_cont true [] [] [] k (empty_content kk)) (fun ok =>
+                  if ok then xbind (rec k sd (empty_node k) true) (fun td' => XOk (set_nth i (Some td') tc))
+                  else XErr)       (* "could not create ... container node" *)
+            end)
+      end
+  | SList _ _ _ =>
+      match nth i sc None with
+      | None => XOk tc
+      | Some sd =>
+          if has_when k then XErr else
+          let td := match nth i tc None with Some td => td | None => empty_node k end in
+          xbind (rec k sd td (negb (present (nth i tc None)))) (fun td' => XOk (set_nth i (Some td') tc))
+      end
+  end.
+
 Fixpoint wedit (s : snode) (src tgt : dnode) (new : bool) {struct s} : xres dnode :=
   match s, src, tgt with
   | SCont _ kids, DCont sc, DCont tc =>
@@ -485,49 +532,7 @@ Fixpoint wedit (s : snode) (src tgt : dnode) (new : bool) {struct s} : xres dnod
             match ks with
             | [] => XOk tc
             | k :: ks' =>
-                if negb (Nat.eqb (length (sguard k)) 0) then XUnsup else
-                match k with
-                | SLeaf _ _ _ dflt =>
-                    let v := match nth i sc None with
-                             | Some d => Some d
-                             | None => if new then option_map DLeaf dflt else None
-                             end in
-                    match v with
-                    | None => go ks' (S i) tc
-                    | Some d =>
-                        xbind (when_field true [] kids tc k) (fun ok =>
-                          go ks' (S i) (if ok then set_nth i (Some d) tc else tc))
-                    end
-                | SCont _ kk =>
-                    match nth i sc None with
-                    | None => go ks' (S i) tc
-                    | Some sd =>
-                        (* to.selekt(New=false): existing child if its when holds *)
-                        let existing : xres (option dnode) :=
-                          match nth i tc None with
-                          | Some (DCont cc as td) => xbind (when_cont true [] [] [] k cc) (fun ok => XOk (if ok then Some td else None))
-                          | Some _ => XUnsup
-                          | None => XOk None
-                          end in
-                        xbind existing (fun ex =>
-                          match ex with
-                          | Some td => xbind (wedit k sd td false) (fun td' => go ks' (S i) (set_nth i (Some td') tc))
-                          | None =>
-                              (* to.selekt(New=true): the store puts a fresh container there, then the post-constraint *)
-                              xbind (when_cont true [] [] [] k (empty_content kk)) (fun ok =>
-                                if ok then xbind (wedit k sd (empty_node k) true) (fun td' => go ks' (S i) (set_nth i (Some td') tc))
-                                else XErr)       (* "could not create ... container node" *)
-                          end)
-                    end
-                | SList _ _ _ =>
-                    match nth i sc None with
-                    | None => go ks' (S i) tc
-                    | Some sd =>
-                        if has_when k then XErr else
-                        let td := match nth i tc None with Some td => td | None => empty_node k end in
-                        xbind (wedit k sd td (negb (present (nth i tc None)))) (fun td' => go ks' (S i) (set_nth i (Some td') tc))
-                    end
-                end
+                xbind (wedit_kid (fun k' a b n => wedit k' a b n) new kids sc i k tc) (fun tc' => go ks' (S i) tc')
             end) kids O tc)
         (fun tc' => XOk (DCont tc'))
   | SList _ keys row, DList srows, DList trows =>
